@@ -981,7 +981,8 @@ func (p *asyncProducer) retryBatch(topic string, partition int32, pSet *partitio
 	produceSet.bufferCount += len(pSet.msgs)
 	for _, msg := range pSet.msgs {
 		if msg.retries >= p.conf.Producer.Retry.Max {
-			p.returnError(msg, kerr)
+			// the batch is retried or failed as a whole: every message of it gets its outcome
+			p.returnErrors(pSet.msgs, kerr)
 			return
 		}
 		msg.retries++
